@@ -53,6 +53,13 @@ func (b *Machine) VerifSnapshot() VerifMachineSnapshot {
 	return s
 }
 
+// VerifVersion returns the negotiated handshake version. Unlike VerifSnapshot
+// it reads nothing that changes after the handshake, so it may be called while
+// another goroutine is using the Machine.
+func (b *Machine) VerifVersion() byte {
+	return b.version
+}
+
 // VerifMachine returns the noise machine of a NoiseGrpcConn (nil before a
 // handshake was started).
 func (c *NoiseGrpcConn) VerifMachine() *Machine {
